@@ -228,7 +228,8 @@ Lemma S_annotation_body : SimP (@eq unit) annotation_body annotation_body.
 Proof.
   unfold annotation_body.
   eapply (@S_bind _ _ (pair_rel (Forall2 tok_sim) (opt_rel tok_sim))); [apply S_take_until|].
-  intros [b t] [b' t'] [H1 H2]. cbn [fst snd] in *. destruct H2; [apply S_ret; reflexivity|apply S_fail].
+  intros [b t] [b' t'] [H1 H2]. cbn [fst snd] in *. destruct H2 as [a a' Ha|]; [|apply S_fail].
+  rewrite <- (ts_ty _ _ Ha). destruct (tt_eqb (tty a) TCSqrBracket); [apply S_ret; reflexivity|apply S_fail].
 Qed.
 #[export] Hint Resolve S_annotation_body : sdb.
 
